@@ -24,6 +24,8 @@ RULE = ("Generated: expression trees of depth <= 3 over + - * / ** neg abs > >= 
         "leaves and non-default BCs on the left-most leaf.  Distinct = SHA-1 of the canonical case.")
 ASSUMPTIONS = ["numpy scalars / arrays as LEFT operand of a CellVariable are outside the documented domain (numpy's own operator takes over via __array__)",
                "arrays are not valid FaceVariable operands (three differently shaped components)",
+               "comparison / logical operators appear only at the root of a tree: their results are boolean-valued (for FaceVariables always, for "
+               "CellVariables when the ghost layer is built by concatenation, i.e. 1-D periodic) and numpy itself refuses '-' on booleans",
                "K6: faceeval with a function that hands its argument back (identity, np.asarray) is exercised only in the known-finding replay"]
 BIN = {'+': operator.add, '-': operator.sub, '*': operator.mul, '/': operator.truediv, '**': operator.pow,
        '>': operator.gt, '>=': operator.ge, '<': operator.lt, '<=': operator.le, '&': operator.and_, '|': operator.or_}
@@ -75,7 +77,7 @@ def _case(draw):
     else:
         case['vars'] = [dict(comps=draw(gen.face_field(d, styles=('generic', 'int', 'pos', 'zeros'), lo=-2, hi=2))) for _ in range(nvars)]
     if kind == 'cell':
-        case['tree'] = draw(tree(3, nvars))
+        case['tree'] = draw(tree(3, nvars, nested_bool=False))
     elif kind == 'face':
         case['tree'] = draw(tree(3, nvars, allow_arr=False, nested_bool=False))
         case['npscalar'] = draw(st.booleans())
